@@ -40,6 +40,16 @@ CLAIMED = {
         technique="symbolic execution of the real functions + z3 string/regex VCs",
         note=LEVEL_NOTE_MODELS + "; literal alphabet is a fixed finite list, column values are unbounded; SQLAlchemy's literal quoting is trusted; SQLite LIKE case-insensitivity (library warns) is not re-reported",
     ),
+    "C05": dict(
+        text="Mixed: (proof) merge_desc_nulls_last orders two arbitrary rows like (key, descending, nulls_last) under the dense-rank model, for Int/Float/String keys and all flag "
+        "combinations; shift(n) = row offset -n for symbolic n on both backends; the order-restoration lemma. (bounded, reported as stand-ins) marker peeling up to depth 4, "
+        "dedup_order_by / compile_order over all modifier combinations, partition injection over the whole operator catalogue, and the exact shape of the Polars / SQL "
+        "window compilation (same keys and flags in both sort_by calls; OVER (PARTITION BY .. ORDER BY ..)). The Arrange verb branches and the row-set seen by windows are "
+        "decided by C02 / C08.",
+        design_ref="DESIGN.md §5.5",
+        technique="symbolic execution of the real functions + z3 VCs (two-row relational); structural contracts evaluated on the real code",
+        note=LEVEL_NOTE_MODELS + "; polars rank/sort_by/over and SQL OVER/LAG/LEAD semantics are axioms",
+    ),
 }
 
 NOT_YET = "check not built yet (engine under construction); will be claimed as soon as its obligations discharge"
